@@ -105,9 +105,7 @@ func foreignPeer(rec *vr.Rec, reps int, seed int64) {
 			if err != nil {
 				continue
 			}
-			sc.Feed(ref.EncodeTCP(ref.Msg{Code: 7<<5 | 1, Opts: []ref.Opt{{ID: 2, Val: ref.Uint(1152)}, {ID: 4, Val: nil}}}))
-			sc.WaitConsumed(5 * time.Second)
-			time.Sleep(200 * time.Microsecond)
+			sim.AnnounceBlockwise(sc, cc, ref.EncodeTCP(ref.Msg{Code: 7<<5 | 1, Opts: []ref.Opt{{ID: 2, Val: ref.Uint(1152)}, {ID: 4, Val: nil}}}))
 			inject = func(m ref.Msg) { sc.Feed(ref.EncodeTCP(m)) }
 			sent = func() []ref.Msg { ms, _ := ref.ParseTCPStream(sc.Written()); return ms }
 			get = func(ctx context.Context) ([]byte, error) {
